@@ -605,3 +605,159 @@ pub fn t_f64_lt_min(a: i128, b: i128) -> bool {
     f64::from_bits(a as u64) < i128::MIN as f64
 }
 
+#[inline(never)]
+pub fn t_range_sum(a: i128, b: i128) -> i128 {
+    let _ = b;
+    { let mut s: i128 = 0; for i in 0..((a as u8) % 7) { s = s.wrapping_add(b.wrapping_mul(i as i128 + 1)); } s }
+}
+
+#[inline(never)]
+pub fn t_range_incl(a: i128, b: i128) -> i128 {
+    let _ = b;
+    { let mut s: i128 = 1; for _ in 1..=((a as u8) % 5) { s = s.wrapping_mul(10); } s.wrapping_add(b) }
+}
+
+#[inline(never)]
+pub fn t_rem_euclid(a: i128, b: i128) -> i128 {
+    let _ = b;
+    a.rem_euclid(if b == 0 { 7 } else if b == -1 { -3 } else { b })
+}
+
+#[inline(never)]
+pub fn t_div_euclid(a: i128, b: i128) -> i128 {
+    let _ = b;
+    a.div_euclid(if b == 0 { 7 } else if b == -1 { -3 } else { b })
+}
+
+#[inline(never)]
+pub fn t_ilog10(a: i128, b: i128) -> i128 {
+    let _ = b;
+    (a.unsigned_abs().max(1)).ilog10() as i128
+}
+
+#[inline(never)]
+pub fn t_map_or(a: i128, b: i128) -> i128 {
+    let _ = b;
+    a.checked_add(b).map_or(-9, |x| x.wrapping_sub(1))
+}
+
+#[inline(never)]
+pub fn t_opt_filter(a: i128, b: i128) -> Option<i128> {
+    let _ = b;
+    a.checked_sub(b).filter(|x| *x > 5)
+}
+
+#[inline(never)]
+pub fn t_opt_zip(a: i128, b: i128) -> i128 {
+    let _ = b;
+    a.checked_add(1).zip(b.checked_sub(1)).map_or(0, |(x, y)| x.wrapping_add(y))
+}
+
+#[inline(never)]
+pub fn t_is_some_and(a: i128, b: i128) -> bool {
+    let _ = b;
+    a.checked_mul(b).is_some_and(|x| x % 2 == 0)
+}
+
+#[inline(never)]
+pub fn t_tuple_match(a: i128, b: i128) -> i128 {
+    let _ = b;
+    match (a.signum(), b.signum()) { (1, 1) => 1, (-1, -1) => 2, (0, _) | (_, 0) => 0, _ => -1 }
+}
+
+#[inline(never)]
+pub fn t_table_lookup(a: i128, b: i128) -> i128 {
+    let _ = b;
+    { const T: [i128; 4] = [1, 10, 100, 1000]; T[(a as u8 % 4) as usize].wrapping_mul(b) }
+}
+
+#[inline(never)]
+pub fn t_while_loop(a: i128, b: i128) -> i128 {
+    let _ = b;
+    { let mut x = a.unsigned_abs() % 1000; let mut n: i128 = 0; while x > 0 { x /= 10; n += 1; } n }
+}
+
+#[inline(never)]
+pub fn t_count_ones(a: i128, b: i128) -> i128 {
+    let _ = b;
+    (a as u64).count_ones() as i128
+}
+
+#[inline(never)]
+pub fn t_u128_mid(a: i128, b: i128) -> i128 {
+    let _ = b;
+    (((a as u128 as u64 as u128) * (b as u128 as u64 as u128)) >> 64) as i128
+}
+
+#[inline(never)]
+pub fn t_clamp_i(a: i128, b: i128) -> i128 {
+    let _ = b;
+    a.clamp(-100, 100)
+}
+
+#[inline(never)]
+pub fn t_saturating_neg(a: i128, b: i128) -> i128 {
+    let _ = b;
+    a.saturating_neg()
+}
+
+#[inline(never)]
+pub fn t_sat_abs(a: i128, b: i128) -> i128 {
+    let _ = b;
+    a.saturating_abs()
+}
+
+#[inline(never)]
+pub fn t_checked_ilog10(a: i128, b: i128) -> Option<i128> {
+    let _ = b;
+    a.unsigned_abs().checked_ilog10().map(|k| k as i128)
+}
+
+#[inline(never)]
+pub fn t_checked_ilog10_s(a: i128, b: i128) -> Option<i128> {
+    let _ = b;
+    a.checked_ilog10().map(|k| k as i128)
+}
+
+#[inline(never)]
+pub fn t_let_else(a: i128, b: i128) -> i128 {
+    let _ = b;
+    { let Some(s) = (a as i8).checked_sub(b as i8).filter(|&s| s > 0).map(i8::unsigned_abs) else { return -1 }; s as i128 }
+}
+
+#[inline(never)]
+pub fn t_then_ok_or(a: i128, b: i128) -> i128 {
+    let _ = b;
+    (a % 7 == 0).then(|| a / 7).ok_or(3u8).unwrap_or(-2)
+}
+
+#[inline(never)]
+pub fn t_f64_div(a: i128, b: i128) -> i128 {
+    let _ = b;
+    (f64::from_bits(a as u64) / f64::from_bits(b as u64)).to_bits() as i128
+}
+
+#[inline(never)]
+pub fn t_f64_mul(a: i128, b: i128) -> i128 {
+    let _ = b;
+    (f64::from_bits(a as u64) * f64::from_bits(b as u64)).to_bits() as i128
+}
+
+#[inline(never)]
+pub fn t_f32_div(a: i128, b: i128) -> i128 {
+    let _ = b;
+    (f32::from_bits(a as u32) / f32::from_bits(b as u32)).to_bits() as i128
+}
+
+#[inline(never)]
+pub fn t_f32_add(a: i128, b: i128) -> i128 {
+    let _ = b;
+    (f32::from_bits(a as u32) + f32::from_bits(b as u32)).to_bits() as i128
+}
+
+#[inline(never)]
+pub fn t_i64_ratio_f32(a: i128, b: i128) -> i128 {
+    let _ = b;
+    ((a as i64) as f32 / (10u64.pow((b as u32) % 19)) as f32).to_bits() as i128
+}
+
